@@ -251,12 +251,21 @@ class JSONPointer:
             )
         return ""
 
-    def _unicode_escape(self, s: str) -> str:
+    @staticmethod
+    def _unicode_escape(s: str) -> str:
         # UTF-16 escape sequences - possibly surrogate pairs - inside UTF-8
         # encoded strings. As per https://datatracker.ietf.org/doc/html/rfc4627
         # section 2.5.
+        if "\\" not in s:
+            # Nothing to decode.
+            return s
+        # The "unicode-escape" codec reads its input as Latin-1, so characters
+        # outside ASCII are escaped first to survive the round trip.
         return (
-            codecs.decode(s.replace("\\/", "/"), "unicode-escape")
+            codecs.decode(
+                s.replace("\\/", "/").encode("ascii", "backslashreplace"),
+                "unicode-escape",
+            )
             .encode("utf-16", "surrogatepass")
             .decode("utf-16")
         )
@@ -305,12 +314,7 @@ class JSONPointer:
         if uri_decode:
             _parts = (unquote(p) for p in _parts)
         if unicode_escape:
-            _parts = (
-                codecs.decode(p.replace("\\/", "/"), "unicode-escape")
-                .encode("utf-16", "surrogatepass")
-                .decode("utf-16")
-                for p in _parts
-            )
+            _parts = (cls._unicode_escape(p) for p in _parts)
 
         __parts = tuple(_parts)
 
